@@ -108,7 +108,7 @@ fn install_panic_hook() {
         };
         if let Ok(mut g) = PANIC_MSG.lock() {
             let mut m = format!("{} @ {}", msg, loc);
-            if std::env::var("YSIM_BT").is_ok() {
+            if crate::arena::BT.load(std::sync::atomic::Ordering::Relaxed) {
                 let bt = std::backtrace::Backtrace::force_capture().to_string();
                 for l in bt.lines().filter(|l| l.contains("yrs::") || l.contains("/repo/yrs")) {
                     m.push('\n');
